@@ -2060,6 +2060,15 @@ class DynamicSpaceImpl(BaseSpaceImpl):
     def _init_root(self, parent):
         self.rootspace = parent.rootspace
 
+    @property
+    def allow_none(self):
+        # Always that of the space this one is a copy of
+        return self._dynbase.allow_none
+
+    @allow_none.setter
+    def allow_none(self, value):
+        pass
+
     def _init_cells(self):
         for base in self._dynbase.cells.values():
             DynamicCellsImpl(space=self, base=base, is_derived=True)
